@@ -44,6 +44,12 @@ def r_option_plumbing(ctx, repo):
             if v is None:
                 rule.fail('%s|dropped|%s' % (f.qualname, o), f.module.rel, c.lineno, f.qualname, norm(c)[:80],
                           'yaml.%s accepts the option %s but does not pass it to the dumper' % (name, o))
+            elif isinstance(v, ast.Name) and v.id == o and any(
+                    isinstance(x, ast.Name) and x.id == o and isinstance(x.ctx, (ast.Store, ast.Del)) for x in walk_function(f.node)):
+                st = [x for x in walk_function(f.node) if isinstance(x, ast.Name) and x.id == o and isinstance(x.ctx, (ast.Store, ast.Del))][0]
+                rule.fail('%s|rebound|%s' % (f.qualname, o), f.module.rel, st.lineno, f.qualname, '%s = ...' % o,
+                          'yaml.%s rebinds its option %s before handing it to the dumper: what the caller asked for is overridden '
+                          '(for some combination of the other options)' % (name, o))
             elif not (isinstance(v, ast.Name) and v.id == o):
                 rule.fail('%s|crossed|%s' % (f.qualname, o), f.module.rel, c.lineno, f.qualname, '%s=%s' % (o, norm(v)),
                           'yaml.%s passes %s=%s: the option %s receives another option\'s value' % (name, o, norm(v), o))
